@@ -21,6 +21,7 @@ type c18Case struct {
 	ReadyPoll  int  // instances become ready on this poll (1..4); -1 never (deadline)
 	AttachFail int  // k-th AttachInstances call fails (0 = none)
 	TermFail   int  // j-th TerminateInstances call fails (0 = none)
+	TermFail2  int  // a second failing TerminateInstances call (0 = none)
 	StatusFail int  // k-th status poll fails (0 = none)
 	PriorFails int  // consecutive failed provisionings before this one (exit after the third)
 	HalfNever  bool // every other instance never becomes ready (the others are running from ReadyPoll on)
@@ -52,6 +53,9 @@ func c18Run(p c18Case) (entries []sim.Entry, err error, exit bool, pan any, setu
 	}
 	if p.TermFail > 0 {
 		d.failAt(sim.OpTermIns, p.TermFail)
+	}
+	if p.TermFail2 > 0 {
+		d.failAt(sim.OpTermIns, p.TermFail2)
 	}
 	if p.StatusFail > 0 {
 		d.failAt(sim.OpStatus, p.StatusFail)
@@ -145,6 +149,13 @@ func c18Grid(t *testing.T, tier string, shard, shards int, c *h.Collector) {
 			}
 			for sf := 1; sf <= 3; sf++ {
 				run(c18Case{Size: n, ReadyPoll: 1, StatusFail: sf})
+			}
+			// two of the hand-back calls fail (whatever is done about them, no call carries more than 1000 ids)
+			if n > 1000 {
+				for _, pair := range [][2]int{{1, 2}, {1, 3}, {2, 3}} {
+					run(c18Case{Size: n, ReadyPoll: -1, TermFail: pair[0], TermFail2: pair[1]})
+					run(c18Case{Size: n, ReadyPoll: 1, AttachFail: 1, TermFail: pair[0], TermFail2: pair[1]})
+				}
 			}
 			// a partly fulfilled answer (fewer instances than asked for, plus an error entry)
 			if n > 1 {
